@@ -1,0 +1,99 @@
+//go:build verif
+
+package gensign
+
+// Contracts for the verification framework in /verif (comment-only file,
+// compiled only with -tags verif; see /verif/DESIGN.md).
+
+//@ import csr "github.com/theparanoids/ysshra/csr"
+
+//@ # ---------------------------------------------------------------- typed errors (C04)
+//@ ghost func isErr(e error, t int) bool = typeof(e) == *Error && pl(e) != 0 && e.(*Error).etype == t
+
+//@ func NewError(t, handlerName, err)
+//@   ensures result != nil && fresh(result) && result.etype == t && result.handlerName == handlerName
+//@ func NewErr(t, err)
+//@   ensures result != nil && fresh(result) && result.etype == t
+//@ func NewErrorWithMsg(t, handlerName, msg)
+//@   ensures result != nil && fresh(result) && result.etype == t && result.handlerName == handlerName && result.err != nil
+//@ func NewErrWithMsg(t, msg)
+//@   ensures result != nil && fresh(result) && result.etype == t && result.err != nil
+//@ func IsError(err)
+//@   ensures result1 <==> typeof(err) == *Error
+//@   ensures result1 ==> result0 == err.(*Error)
+//@   ensures !result1 ==> result0 == nil
+//@ func IsErrorOfType(err, typ)
+//@   requires typeof(err) == *Error ==> pl(err) != 0
+//@   ensures result <==> (typeof(err) == *Error && err.(*Error).etype == typ)
+//@ func (Error).Type(e)
+//@   ensures result == e.etype
+
+//@ func ExportPanicMetric(ctx, p, msg)
+//@   requires meter != nil
+//@   ensures true
+
+//@ # ---------------------------------------------------------------- handlers (C01, C04): abstract, may fail or panic
+//@ interface (Handler).Authenticate(params)
+//@   flag logged maypanic
+//@   ensures true
+//@ interface (Handler).Name()
+//@   flag maypanic
+//@   ensures true
+
+//@ ghost func nAuth() int = calls(Handler.Authenticate) - old(calls(Handler.Authenticate))
+//@ # every Authenticate call so far went, in order, to handlers[0], handlers[1], ... with the caller's params
+//@ ghost func authInOrder(handlers []Handler, params *csr.ReqParam) bool =
+//@   nAuth() >= 0 && nAuth() <= len(handlers) &&
+//@   forall(j, 0 <= j && j < nAuth(), arg(Handler.Authenticate, old(calls(Handler.Authenticate)) + j, 0) == handlers[j] &&
+//@     arg(Handler.Authenticate, old(calls(Handler.Authenticate)) + j, 1) == params)
+//@ # all Authenticate calls before index n (relative) returned an error without panicking
+//@ ghost func authFailedBefore(n int) bool =
+//@   forall(j, 0 <= j && j < n, !panicked(Handler.Authenticate, old(calls(Handler.Authenticate)) + j) &&
+//@     ret(Handler.Authenticate, old(calls(Handler.Authenticate)) + j, 0) != nil)
+//@ # the last Authenticate call succeeded and all earlier ones failed: its handler is "the first that accepted"
+//@ ghost func firstAccepted() bool = nAuth() >= 1 && authFailedBefore(nAuth() - 1) &&
+//@   !panicked(Handler.Authenticate, calls(Handler.Authenticate) - 1) && ret(Handler.Authenticate, calls(Handler.Authenticate) - 1, 0) == nil
+//@ ghost func nothingDownstream() bool = calls(Generator.Generate) == old(calls(Generator.Generate)) && calls(Signer.Sign) == old(calls(Signer.Sign)) &&
+//@   calls(AgentKey.AddCertsToAgent) == old(calls(AgentKey.AddCertsToAgent)) && calls(AgentKey.CSRs) == old(calls(AgentKey.CSRs))
+//@ ghost func generated(params *csr.ReqParam) bool = calls(Generator.Generate) == old(calls(Generator.Generate)) + 1 &&
+//@   arg(Generator.Generate, old(calls(Generator.Generate)), 0) == arg(Handler.Authenticate, calls(Handler.Authenticate) - 1, 0) &&
+//@   arg(Generator.Generate, old(calls(Generator.Generate)), 1) == params
+//@ ghost func generatedOK(params *csr.ReqParam) bool = generated(params) && !panicked(Generator.Generate, old(calls(Generator.Generate))) &&
+//@   ret(Generator.Generate, old(calls(Generator.Generate)), 1) == nil
+//@ ghost func allSignedSoFar() bool = forall(i, old(calls(Signer.Sign)) <= i && i < calls(Signer.Sign), !panicked(Signer.Sign, i) && ret(Signer.Sign, i, 2) == nil)
+//@ ghost func allAddedSoFar() bool = forall(i, old(calls(AgentKey.AddCertsToAgent)) <= i && i < calls(AgentKey.AddCertsToAgent),
+//@   !panicked(AgentKey.AddCertsToAgent, i) && ret(AgentKey.AddCertsToAgent, i, 0) == nil)
+
+//@ func Run(ctx, params, handlers, signer)
+//@   flag recovers
+//@   requires meter != nil
+//@   ensures [handlers-asked-in-configured-order] authInOrder(handlers, params)
+//@   ensures [request-comes-from-the-first-handler-that-accepted] calls(Generator.Generate) <= old(calls(Generator.Generate)) + 1 &&
+//@     (calls(Generator.Generate) == old(calls(Generator.Generate)) + 1 ==> (firstAccepted() && generated(params)))
+//@   ensures [all-authentications-failed] (nAuth() == len(handlers) && authFailedBefore(nAuth())) ==> (isErr(err, 7) && nothingDownstream())
+//@   ensures [nothing-signed-or-added-without-a-generated-request] (calls(Signer.Sign) > old(calls(Signer.Sign)) || calls(AgentKey.AddCertsToAgent) > old(calls(AgentKey.AddCertsToAgent))) ==> generatedOK(params)
+//@   ensures [generation-error-returned] (generated(params) && !panicked(Generator.Generate, old(calls(Generator.Generate))) && ret(Generator.Generate, old(calls(Generator.Generate)), 1) != nil) ==>
+//@     (err == ret(Generator.Generate, old(calls(Generator.Generate)), 1) && calls(Signer.Sign) == old(calls(Signer.Sign)) && calls(AgentKey.AddCertsToAgent) == old(calls(AgentKey.AddCertsToAgent)))
+//@   ensures [empty-generation-is-an-error] (generatedOK(params) && len(ret(Generator.Generate, old(calls(Generator.Generate)), 0)) == 0) ==> (isErr(err, 5) && calls(Signer.Sign) == old(calls(Signer.Sign)))
+//@   ensures [signer-failure-is-a-signer-error] (calls(Signer.Sign) > old(calls(Signer.Sign)) && !panicked(Signer.Sign, calls(Signer.Sign) - 1) && ret(Signer.Sign, calls(Signer.Sign) - 1, 2) != nil) ==> isErr(err, 8)
+//@   ensures [agent-failure-is-an-agent-error] (calls(AgentKey.AddCertsToAgent) > old(calls(AgentKey.AddCertsToAgent)) && !panicked(AgentKey.AddCertsToAgent, calls(AgentKey.AddCertsToAgent) - 1) &&
+//@     ret(AgentKey.AddCertsToAgent, calls(AgentKey.AddCertsToAgent) - 1, 0) != nil) ==> isErr(err, 9)
+//@   ensures [panic-in-authenticate-is-a-panic-error] (nAuth() >= 1 && panicked(Handler.Authenticate, calls(Handler.Authenticate) - 1)) ==> isErr(err, 10)
+//@   ensures [panic-in-generate-is-a-panic-error] (calls(Generator.Generate) > old(calls(Generator.Generate)) && panicked(Generator.Generate, old(calls(Generator.Generate)))) ==> isErr(err, 10)
+//@   ensures [panic-in-sign-is-a-panic-error] (calls(Signer.Sign) > old(calls(Signer.Sign)) && panicked(Signer.Sign, calls(Signer.Sign) - 1)) ==> isErr(err, 10)
+//@   ensures [panic-in-the-agent-is-a-panic-error] (calls(AgentKey.AddCertsToAgent) > old(calls(AgentKey.AddCertsToAgent)) && panicked(AgentKey.AddCertsToAgent, calls(AgentKey.AddCertsToAgent) - 1)) ==> isErr(err, 10)
+//@   ensures [success-means-everything-signed-and-delivered] err == nil ==> (generatedOK(params) && len(ret(Generator.Generate, old(calls(Generator.Generate)), 0)) >= 1 &&
+//@     allSignedSoFar() && allAddedSoFar() &&
+//@     calls(AgentKey.AddCertsToAgent) - old(calls(AgentKey.AddCertsToAgent)) == len(ret(Generator.Generate, old(calls(Generator.Generate)), 0)) &&
+//@     calls(AgentKey.CSRs) - old(calls(AgentKey.CSRs)) == len(ret(Generator.Generate, old(calls(Generator.Generate)), 0)))
+//@   ensures [every-failure-is-a-typed-error] err != nil ==> (typeof(err) == *Error || (generated(params) && err == ret(Generator.Generate, old(calls(Generator.Generate)), 1)))
+//@   loop 1:
+//@     invariant nAuth() == rangeindex + 1 && authInOrder(handlers, params) && authFailedBefore(nAuth()) && handler == nil && nothingDownstream() && err == nil
+//@   loop 2:
+//@     invariant authInOrder(handlers, params) && firstAccepted() && generatedOK(params) && csrAgentKeys == ret(Generator.Generate, old(calls(Generator.Generate)), 0) && len(csrAgentKeys) >= 1
+//@     invariant calls(AgentKey.AddCertsToAgent) == old(calls(AgentKey.AddCertsToAgent)) + rangeindex#2 + 1 && calls(AgentKey.CSRs) == old(calls(AgentKey.CSRs)) + rangeindex#2 + 1
+//@     invariant allSignedSoFar() && allAddedSoFar() && err == nil
+//@   loop 3:
+//@     invariant authInOrder(handlers, params) && firstAccepted() && generatedOK(params) && csrAgentKeys == ret(Generator.Generate, old(calls(Generator.Generate)), 0) && len(csrAgentKeys) >= 1
+//@     invariant calls(AgentKey.AddCertsToAgent) == old(calls(AgentKey.AddCertsToAgent)) + rangeindex#2 && calls(AgentKey.CSRs) == old(calls(AgentKey.CSRs)) + rangeindex#2 + 1
+//@     invariant 0 <= rangeindex#2 && rangeindex#2 < len(csrAgentKeys) && allSignedSoFar() && allAddedSoFar() && err == nil
